@@ -19,6 +19,7 @@ def run(chk):
                                 "model and by the live plum resolver")
     tab.run(chk, FUNCTIONS, mode="C04")
     nested_roles(chk)
+    forwarding_sites(chk)
 
     def replayer(ob):
         if (ob.witness or {}).get("engine") == "ROLES":
@@ -120,3 +121,79 @@ def nested_roles(chk):
     if bad:
         ob.witness = dict(engine="ROLES", detail=bad[0])
     chk.add(ob)
+
+
+AUTO_SETTINGS = ("tol", "max_iters", "pbar")       # the settings an Auto object documents (cola/linalg docstrings: Auto(tol=..., max_iters=..., pbar=...))
+
+
+def forwarding_sites(chk):
+    """Every place where the settings of an algorithm object are forwarded wholesale (`Target(**alg.__dict__)`, `fn(A, **self.__dict__)`): each
+    field of the source class (for Auto: its documented settings) must be a parameter of the target, or the call raises TypeError for an admissible
+    algorithm object.  Sources are resolved from the parameter annotation of the enclosing rule / the enclosing dataclass; AST of the live modules."""
+    import ast
+    import dataclasses
+    import inspect
+    import sys
+    import time
+    from vcgen.core import DISCHARGED, FAILED, Ob
+    from vcgen import frame
+    frame.scan_modules()
+    t0 = time.time()
+    for name, mod in sorted(sys.modules.items()):
+        if not (name == "cola" or name.startswith("cola.")) or mod is None or any(s_ in name for s_ in ("torch", "jax", "utils_for_tests", "svrg", "nullspace")):
+            continue
+        path = getattr(mod, "__file__", None)
+        if not path or not path.endswith(".py"):
+            continue
+        tree = ast.parse(open(path).read())
+
+        def fields_of(cls):
+            if cls is None:
+                return None
+            if cls.__name__ == "Auto":
+                return set(AUTO_SETTINGS)
+            if dataclasses.is_dataclass(cls):
+                return {f.name for f in dataclasses.fields(cls)}
+            return None
+
+        def visit(node, cls_ctx, fn_ctx):
+            for ch in ast.iter_child_nodes(node):
+                if isinstance(ch, ast.ClassDef):
+                    visit(ch, getattr(mod, ch.name, None), None)
+                elif isinstance(ch, (ast.FunctionDef, ast.AsyncFunctionDef)):
+                    visit(ch, cls_ctx, ch)
+                else:
+                    if isinstance(ch, ast.Call):
+                        for kw in ch.keywords:
+                            v = kw.value
+                            if kw.arg is None and isinstance(v, ast.Attribute) and v.attr == "__dict__" and isinstance(v.value, ast.Name):
+                                src_name = v.value.id
+                                src_cls = None
+                                if src_name == "self":
+                                    src_cls = cls_ctx
+                                elif fn_ctx is not None:
+                                    for a in fn_ctx.args.args:
+                                        if a.arg == src_name and a.annotation is not None:
+                                            src_cls = getattr(mod, ast.unparse(a.annotation), None)
+                                    # re-assigned inside the rule (alg = CG(**alg.__dict__)): the annotation of the parameter is what arrives
+                                callee = ch.func.id if isinstance(ch.func, ast.Name) else (ch.func.attr if isinstance(ch.func, ast.Attribute) else None)
+                                target = getattr(mod, callee, None) if callee else None
+                                fs = fields_of(src_cls)
+                                key = f"C04/forwarding/{name}:{fn_ctx.name if fn_ctx else '<module>'}:{callee}(**{src_name}.__dict__)[{getattr(src_cls, '__name__', '?')}]"
+                                if target is None or fs is None:
+                                    continue
+                                try:
+                                    sig = inspect.signature(target)
+                                except (TypeError, ValueError):
+                                    continue
+                                params = set(sig.parameters)
+                                has_kwargs = any(p.kind == p.VAR_KEYWORD for p in sig.parameters.values())
+                                missing = sorted(fs - params) if not has_kwargs else []
+                                ob = Ob(key=key, fn=f"{name}.{fn_ctx.name if fn_ctx else ''}", clause="settings forwarded wholesale are accepted by the target", engine="TAB",
+                                        status=DISCHARGED if not missing else FAILED, backend="AST of the live modules + inspect.signature of the target",
+                                        secs=0.0, detail=f"{sorted(fs)} within the parameters of {callee}" if not missing else f"{callee} has no parameter {missing} (line {ch.lineno})")
+                                if missing:
+                                    ob.witness = dict(engine="FORWARD", site=key, missing=missing)
+                                chk.add(ob)
+                    visit(ch, cls_ctx, fn_ctx)
+        visit(tree, None, None)
